@@ -275,6 +275,16 @@ func negotiateFeatures(ctx context.Context, s *Session, first, ws bool, features
 
 			// No features that haven't already been negotiated were sent… we're done.
 			if data.feature.Name.Local == "" {
+				// Unless a required feature that could not be negotiated when the list
+				// was read has become possible in the meantime (a feature of the same
+				// list changed the session state): we have no parse data for it, so
+				// like any other list we cannot act on it is an error, not success.
+				for _, v := range list.skipped {
+					_, ok := s.negotiated[v.feature.Name.Space]
+					if v.req && !ok && v.feature.Negotiate != nil && v.feature.allowed(s.state) {
+						return mask, nil, errors.New("xmpp: features advertised out of order")
+					}
+				}
 				return Ready, nil, nil
 			}
 			s.in.d = intstream.Reader(oldDecoder, ws)
@@ -320,6 +330,10 @@ type streamFeaturesList struct {
 
 	// Namespace to sfData
 	cache map[string]sfData
+
+	// Features that we support but that could not be negotiated when the list was
+	// read (initiator only).
+	skipped []sfData
 }
 
 func getFeature(name xml.Name, features []StreamFeature) (feature StreamFeature, ok bool) {
@@ -446,6 +460,10 @@ parsefeatures:
 					s.features[tok.Name.Space] = data
 					continue parsefeatures
 				}
+				sf.skipped = append(sf.skipped, sfData{
+					req:     req,
+					feature: feature,
+				})
 			}
 			// Advance to the end of the feature element (in case the parse function
 			// didn't consume the entire feature or we did not support the feature and
